@@ -48,7 +48,7 @@ REGISTRY = {
     "C18": {
         "level": "proof",
         "modules": ["CoCoVerif.Props.C18", "CoCoVerif.Props.C18Reloc", "CoCoVerif.Props.C18RelocSrc", "CoCoVerif.Props.C18RelocText",
-                    "CoCoVerif.Props.C18Rename", "CoCoVerif.Props.C18RenameFull", "CoCoVerif.Props.C18RelocLists"],
+                    "CoCoVerif.Props.C18Rename", "CoCoVerif.Props.C18RenameFull", "CoCoVerif.Props.C18RelocLists", "CoCoVerif.Props.C18RelocListsProg"],
         "theorems": _T["C18"],
         "rule": "cases = generated programs (ORG first, origin >= $100, label references label / label+-n, branches, PCR, data) each assembled in five "
                 "variants: base, origin shifted by D, labels renamed by a bijection, reformatted (white space, comments, mnemonic case), extended by a "
